@@ -2,7 +2,8 @@
    NamespaceBuildThm (the two loops establish the tree) with NamespaceTreeThm (what holds of such a tree).
    Everything is for EVERY list of types, EVERY iteration order `perm` of the namespace index and
    EVERY iteration order `cperm` of the child sets. *)
-From Verif Require Import NamespaceBase NamespaceBuildThm NamespaceTreeThm NamespacePathThm.
+From Verif Require Import NamespaceBase NamespaceBuildThm NamespaceTreeThm NamespacePathThm NamespaceSortThm.
+From Coq Require Import Sorted.
 Open Scope N_scope.
 
 Section THM.
@@ -158,6 +159,18 @@ Section NOW.
   Proof.
     apply (lookup_total_partial strop same es ext outdir perm cperm perm_perm cperm_perm types r Hnd Hroot Hne
              (ns_fold_same types)).
+  Qed.
+
+  (* Namespace.get_nested_namespaces since fix 9b93945: the children in the order of their unstropped names *)
+  Theorem children_in_name_order :
+    forall k n, get (fst B) k = Some n ->
+      Sorted key_le (sort_keys (n_children n)) /\ NoDup (sort_keys (n_children n)) /\
+      forall c, In c (sort_keys (n_children n)) <-> (In c (keys (fst B)) /\ parent_of c = Some k).
+  Proof.
+    intros k n Hg. destruct (links_consistent k n Hg) as (_ & Hnd' & Hc).
+    split; [apply sort_keys_sorted|]. split.
+    - eapply Permutation_NoDup; [apply Permutation_sym, sort_keys_perm | exact Hnd'].
+    - intros c. rewrite <- Hc. split; apply Permutation_in; [apply sort_keys_perm | apply Permutation_sym, sort_keys_perm].
   Qed.
 End NOW.
 
